@@ -217,7 +217,41 @@ func buildCheckpointRevert(r *rng.R, env *chaingen.Env) (scenario, int) {
 	return scenario{t: s.T, plan: plan}, x.Idx
 }
 
+// buildFlipFlop: the node applies B1, is reorganised to A1-A2 and then back to B1-B2-B3. A1
+// creates many elements and B1 none but its payout, so the accumulator has different sizes at
+// the two tips of height 1; B1 is re-applied from what the store kept, B2 is new and spends
+// old v1 outputs whose proofs the store has to supply.
+func buildFlipFlop(r *rng.R, env *chaingen.Env) scenario {
+	s := chaingen.NewScript(r, env)
+	g := s.T.Nodes[0]
+	many := func(b *chaingen.Builder) {
+		for i := 0; i < 4; i++ {
+			b.AddTx(r, "v1-transfer")
+		}
+		b.AddTx(r, "v1-siafund")
+	}
+	spend := func(b *chaingen.Builder) {
+		b.AddTx(r, "v1-transfer")
+		b.AddTx(r, "v1-siafund")
+	}
+	b1 := s.Extend(g, nil)
+	a1 := s.Extend(g, many)
+	a2 := s.Extend(a1, nil)
+	b2 := s.Extend(b1, spend)
+	b3 := s.Extend(b2, spend)
+	idx := func(ns ...*chaingen.Node) (out []int) {
+		for _, n := range ns {
+			out = append(out, n.Idx)
+		}
+		return
+	}
+	return scenario{t: s.T, plan: []mgrsim.Op{{Kind: "add", Nodes: idx(b1)}, {Kind: "add", Nodes: idx(a1, a2)}, {Kind: "add", Nodes: idx(b1, b2, b3)}}}
+}
+
 func directed(r *rng.R, env *chaingen.Env, name string) *chaingen.Tree {
+	if name == "flip-flop" {
+		return buildFlipFlop(r, env).t
+	}
 	if name == "cross-require" {
 		return buildCross(r, env).t
 	}
@@ -238,6 +272,15 @@ func directedCases() []Case {
 			r := rng.New(cs.Seed)
 			env := chaingen.NewEnv(r, regime)
 			cs.Plan = buildCross(r, env).plan
+		}()
+		out = append(out, cs)
+	}
+	for i := 0; i < 6; i++ {
+		cs := Case{Seed: uint64(8000 + i), Regime: []int{0, 1, 3}[i%3], Directed: "flip-flop", BlindFirst: 1 + i%2}
+		func() {
+			defer func() { recover() }()
+			r := rng.New(cs.Seed)
+			cs.Plan = buildFlipFlop(r, chaingen.NewEnv(r, cs.Regime)).plan
 		}()
 		out = append(out, cs)
 	}
